@@ -254,6 +254,15 @@ Theorem C10_create_collision : forall d w ps pst a init g v,
 Proof. exact create_collision. Qed.
 Print Assumptions C10_create_collision.
 
+(** "every stack value is a 256-bit word" is FALSE without hypotheses on the start state (the model copies
+    environment values, balances, code bytes, storage and hash results as they are): with gas price -1 and
+    the program GASPRICE; STOP a reachable stack holds -1.  The conditional statement (well-formed
+    environment, world, input and hash functions) is in Open.v, not proved *)
+Theorem C10_stack_words_unconditional_refuted : forall keccak blockhash,
+    exists e c f x, reachable_g keccak blockhash e c /\ In f (c_frames c) /\ In x (f_stack f) /\ ~ is_word x.
+Proof. exact stack_words_unconditional_refuted. Qed.
+Print Assumptions C10_stack_words_unconditional_refuted.
+
 (** memory is word-granular: the memory of every frame of every reachable configuration is a whole
     number of 32-byte words (every instruction write and every callee return write lands inside the
     memory that was resized for it — KVM's Memory.Set would panic otherwise) *)
